@@ -116,14 +116,19 @@ pub fn syntax(cex: &Value) -> Result<String, String> {
     }
     for t in &tails {
       for input in [format!("did:a:b{t}"), format!("did:a:{t}b"), format!("did:a{t}:b"), format!("{t}did:a:b"), format!("did:a:b{t}c")] {
-        if input.contains('%') || input.ends_with('?') || input.ends_with('#') || input.contains("?#") || input.contains("??") || input.contains("##") || input.contains("#?") && false {
+        if input.contains('%') {
           continue;
         }
+        // an empty query / fragment is dropped by the third-party to_string: DID URL expectations skip those inputs, the
+        // plain-DID expectations (no URL part at all, not even an empty one) do not
+        let url_too = !(input.ends_with('?') || input.ends_with('#') || input.contains("?#") || input.contains("??") || input.contains("##"));
         let i2 = input.clone();
         match no_panic(move || {
           let mut l = Vec::new();
           check_did(&i2, &mut l);
-          check_url(&i2, &mut l);
+          if url_too {
+            check_url(&i2, &mut l);
+          }
           l
         }) {
           Ok(l) => log.extend(l),
